@@ -12,6 +12,8 @@ Correspondence streams (real code vs Lean model, every case):
   reparsed  parse_y0(str(e))                                   vs  PyEval.parseY0 (Print.expr e)        (iii)
   domain    (constant True)                                    vs  the theorems' hypotheses `wf e ∧ built e` decided by the model on the Python object
   simple    the oracle's simple-division test on the object    vs  the model's `simple e`
+  names_once  "each distribution mentions a name once" decided on the construction tree by
+            harness/oracles/print_names.py                     vs  the model's `namesOnce` (hypothesis of built_of_eval)
 plus a token-string stream (kind "tokens"): Python's parser vs PyParse.parse on mutated printed texts.
 
 Oracle (from the property statement, real code only): parse_y0(str(e)) succeeds and returns an Expression; it has the
@@ -26,31 +28,45 @@ from pathlib import Path
 
 from .. import common as C
 from ..oracles import print_codec as PC
+from ..oracles import print_names as PN
 
 PROP = "C12"
 RULE = ("type-directed constructions through the public builders only: P(...), P[...](...), PP[pop](...), PP[pop][...](...) with "
         "children/parents written as separate arguments, `|`, `&`, tuples, in shuffled order; variables plain, marked (+X, -X, ~X) "
         "and with intervention subscripts (Y @ X, Y @ (X, +Z), (Y @ X) @ Z); Sum[...](...), *, /, One(), Zero(), Q[...](...); "
-        "each distribution mentions a name at most once; depth <= 5 (built objects up to depth 7, 100+ tokens); 44% of the cases "
+        "each distribution mentions a name at most once; depth <= 5 (built objects up to depth 7, 100+ tokens); of the random stream 44% "
         "steered into the simple-division family (fractions only at the top or directly under a Sum, operands division-free and "
         "non-constant), 34% unrestricted, 20% shapes that leave the family (Sum * Fraction, constants as operands, divisions by "
         "fractions, products of fractions, Zero() operands), 2.5% malformed constructions the builders must reject (error taxonomy "
-        "of the interpreter model); names from the parser's table incl. digits, underscores, Pi, π. Corpus: README/paper estimands "
+        "of the interpreter model); a structured stream (15% of the constructions) with one shape per context-dependent printer "
+        "call site, wrapped 0-3 levels deep as summand / numerator / denominator / factor: Sum.to_y0 -> Fraction.to_y0(parens=False) "
+        "with a product / sum / atom denominator and product numerator, also through two Sums; Fraction.to_y0 with product "
+        "denominators at top level, as a factor of a product, with Sum(Fraction) as numerator / denominator / factor; "
+        "CounterfactualVariable.to_y0 with one and with several interventions; the level-2 `P[..](..)` / `PP[..][..](..)` print vs "
+        "mixed worlds (tags `shape`, `site …` computed on the built object); 1.3% constructions OUTSIDE the quantifier that write "
+        "a name twice (exercise `namesOnce` false; the property's oracle is not applied to them); "
+        "names from the parser's table incl. digits, underscores, Pi, π. Corpus: README/paper estimands "
         "and the F4/F5 witnesses. Token-string stream: printed texts with 0-3 token mutations, Python's parser vs PyParse. "
         "A case is non-trivial when the built object has >= 2 leaves and contains a product, a sum or a fraction.")
 ASSUMPTIONS = [
-    "the theorems quantify over expressions satisfying the decidable invariant `built` (children/parents/ranges/(co)domains/"
-    "subscripts sorted with each name once, products flat and in stable-sorted order without constant factors, Zero() only as the "
-    "whole expression). Closure of `built` under `*`, `/` and Sum[...] IS a theorem (built_closed_mul/div/sum, for any asymmetric "
-    "sort order; asymmetry is proved for the pinned _get_key order, for the total key of the expr family it is their key_total); "
-    "closure under the leaf builders P/P[..]/PP[..]/Q[..] and the variable operators + - ~ @ is proved builder by builder "
-    "(built_closed_P, built_closed_P_ivs, built_closed_Q, canon_closed_at, canon_closed_sign; arguments canonical with pairwise "
-    "distinct names). OPEN: built_of_eval, the composition of these along the interpreter's dispatch into one statement over "
-    "construction syntax trees; meanwhile `built` is also decided by the model on every Python-built object of every run "
-    "(correspondence stream `domain`)",
+    "the clause theorems quantify over expressions satisfying the decidable invariant `built` (children/parents/ranges/"
+    "(co)domains/subscripts sorted with each name once, products flat and in stable-sorted order without constant factors, Zero() "
+    "only as the whole expression). That every expression built through the public DSL satisfies it IS a theorem (built_of_eval, "
+    "no longer open): for every construction tree `a` over P/PP/Sum/Q/One/Zero, names, + - ~ @ | & * /, calls, subscripts and tuples "
+    "with `namesOnce a` (the quantifier's 'each distribution mentioning a variable name at most once', a decidable predicate on the "
+    "tree: every call's argument list, every `|`/`&`, every tuple, every `@` argument and every [...] subscript writes a name at most "
+    "once; tuples non-empty), whatever the interpreter model builds from `a` is `built` and well-formed; instantiated for the total "
+    "sort key of the code under test (Expr.ltE, asymmetry from the expr family's Expr.ltE_asymm) and for the pinned key. `namesOnce` "
+    "is decided on EVERY generated construction by the model and by an independent Python implementation (harness/oracles/"
+    "print_names.py, stream `names_once`); the generator produces namesOnce trees by construction (tag names_once: 100% of the "
+    "well-formed streams); the run-time stream `domain` (model decides wf && built on the Python-built object) is kept as a "
+    "cross-check and for constructions outside namesOnce",
     "quantifier: variable names are those of the parser's name table (A..Z without P/Q, Pi, π, with optional digit or _digit); "
     "a user-chosen name outside the table (e.g. 'AA') cannot be parsed by design of parse_y0 and is outside the property; the one such "
-    "name the LIBRARY itself produces (TARGET_DOMAIN = 'pi*', the tag of transport estimands) is an OPEN known finding",
+    "name the LIBRARY itself produces (TARGET_DOMAIN = Population('pi*'), the tag of transport estimands) is inside: the fixed code "
+    "(ee7cb58) prints that population as the DSL constant TARGET_DOMAIN, which the parser's table now knows; the model has the "
+    "constant as a keyword token and 30% of the generated PP[...] terms use it. A variable named 'pi*' anywhere else (a child, a "
+    "subscript) is a user-chosen name outside the table",
     "quantifier: each distribution, each subscript list, each Sum range and each Q-(co)domain mentions a name at most once "
     "(the property's own restriction, extended to subscripts: Y @ (+X, -X) is not generated); Q factors and ranges are non-empty",
     "the tie between the hand-written grammar (Model/PyParse) and Python's parser is correspondence stream (ii): `ast.parse` on every "
@@ -91,6 +107,10 @@ class Gen:
         if rng.random() < 0.15:
             pool[0] = rng.choice(EXOTIC)
         self.pool = list(dict.fromkeys(pool))
+
+    def popn(self):
+        """a population: a π name, or (30%) the library's own TARGET_DOMAIN, the tag of every transport estimand"""
+        return ["k", "TARGET_DOMAIN"] if self.rng.random() < 0.3 else _n(self.rng.choice(POPS))
 
     def mark(self, a, p=0.22):
         r = self.rng.random()
@@ -160,7 +180,7 @@ class Gen:
             args = [["bin", "bor", x, pv[0] if len(pv) == 1 else ["tup"] + pv]]
         head = ["k", "P"]
         if rng.random() < 0.22:
-            head = ["sub", ["k", "PP"], _n(rng.choice(POPS))]
+            head = ["sub", ["k", "PP"], self.popn()]
         if others and rng.random() < 0.28:
             k = min(len(others), rng.choice([1, 1, 2, 3]))
             ivs = [self.iv(n, stars[n]) for n in rng.sample(others, k)]
@@ -261,6 +281,172 @@ class Gen:
         return ["bin", "div", sub(), ["bin", "mul", ["bin", "div", sub(), sub()], sub()]]
 
 
+    # ---- printer call sites: every place where a `to_y0` is called with a non-default argument or chooses its
+    # brackets from the context, each with its own shape (tag `shape`), wrapped 0-3 levels deep
+    MODE_SHAPES = ("sum_frac_prodden", "sum_frac_prodden_sumden", "sum_frac_prodnum", "sum_frac_atoms", "sum_frac_sumden",
+                   "sum_sum_frac_prodden", "frac_prodden_top", "frac_prodnum_prodden", "frac_factor_prodden",
+                   "frac_sumfrac_num", "frac_sumfrac_den", "prod_sumfrac_factor", "frac_prodden_with_sumfrac",
+                   "cf_single_iv", "cf_multi_iv", "level2", "level2_pp", "mixed_worlds", "q_in_den")
+
+    def atom(self):
+        return self.q() if self.rng.random() < 0.12 else self.prob()
+
+    def prodn(self, k=None):
+        k = k or self.rng.choice([2, 2, 3])
+        x = self.atom()
+        for _ in range(k - 1):
+            x = ["bin", "mul", x, self.atom()]
+        return x
+
+    def sm(self, x):
+        return ["call", ["sub", ["k", "Sum"], self.ranges()], x]
+
+    def cfprob(self, k, level2=False, pp=False, mixed=False):
+        """a probability whose variables carry k intervention subscripts: the same on all of them (level-2 print
+        `P[..](..)`), or different ones (mixed worlds, printed variable by variable with `@ x` / `@ (x, y)`)"""
+        rng = self.rng
+        names = list(self.pool)
+        rng.shuffle(names)
+        k = max(1, min(k, len(names) - 2))
+        ivn, rest = names[:k], names[k:]
+        nc = rng.choice([1, 1, 2])
+        np_ = rng.choice([0, 1, 1])
+        nc = min(nc, len(rest))
+        np_ = min(np_, len(rest) - nc)
+        stars = {n: rng.random() < 0.4 for n in ivn}
+        mk = lambda n: (["bin", "matmul", self.mark(_n(n)), self.iv(ivn[0], stars[ivn[0]])] if k == 1 else  # noqa: E731
+                        ["bin", "matmul", self.mark(_n(n)), ["tup"] + [self.iv(i, stars[i]) for i in ivn]])
+        ch = [mk(n) for n in rest[:nc]]
+        pa = [mk(n) for n in rest[nc:nc + np_]]
+        if mixed and (len(ch) + len(pa)) >= 2:
+            # drop the subscripts of one variable, or give it a proper subset: no common intervention set
+            tgt = pa if pa else ch
+            plain = self.mark(_n(rest[nc + np_ - 1] if pa else rest[nc - 1]))
+            tgt[-1] = plain if (k == 1 or rng.random() < 0.5) else ["bin", "matmul", plain, self.iv(ivn[0], stars[ivn[0]])]
+        head = ["k", "P"] if not pp else ["sub", ["k", "PP"], self.popn()]
+        if level2 and rng.random() < 0.5:
+            # the same object written with the builder's own subscript syntax
+            ch = [self.mark(_n(n)) for n in rest[:nc]]
+            pa = [self.mark(_n(n)) for n in rest[nc:nc + np_]]
+            ivs = [self.iv(i, stars[i]) for i in ivn]
+            head = ["sub", head, ivs[0] if k == 1 else ["tup"] + ivs]
+        args = ch if not pa else ch[:-1] + [["bin", "bor", ch[-1], pa[0]]] + pa[1:]
+        return ["call", head] + args
+
+    def mode_core(self, shape):
+        rng = self.rng
+        A, PR, SM = self.atom, self.prodn, self.sm
+        div = lambda a, b: ["bin", "div", a, b]  # noqa: E731
+        mul = lambda a, b: ["bin", "mul", a, b]  # noqa: E731
+        if shape == "sum_frac_prodden":             # Sum.to_y0 -> Fraction.to_y0(parens=False), product denominator
+            return SM(div(A(), PR()))
+        if shape == "sum_frac_prodden_sumden":      # … the product denominator contains a Sum
+            return SM(div(A(), mul(SM(PR()), A())))
+        if shape == "sum_frac_prodnum":
+            return SM(div(PR(), rng.choice([A, PR])()))
+        if shape == "sum_frac_atoms":
+            return SM(div(A(), A()))
+        if shape == "sum_frac_sumden":
+            return SM(div(A(), SM(PR())))
+        if shape == "sum_sum_frac_prodden":         # parens=False reached through two Sums
+            return SM(SM(div(rng.choice([A, PR])(), PR())))
+        if shape == "frac_prodden_top":             # Fraction.to_y0(parens=True), product denominator
+            return div(rng.choice([A, PR])(), PR())
+        if shape == "frac_prodnum_prodden":
+            return div(PR(), PR(3))
+        if shape == "frac_factor_prodden":          # Product.to_y0 -> Fraction.to_y0() of a factor
+            return mul(SM(A()), div(A(), PR()))
+        if shape == "frac_sumfrac_num":             # numerator = Sum(Fraction(.., Product))
+            return div(SM(div(A(), PR())), rng.choice([A, PR])())
+        if shape == "frac_sumfrac_den":             # denominator = Sum(Fraction(.., Product))
+            return div(A(), SM(div(A(), PR())))
+        if shape == "prod_sumfrac_factor":          # a factor = Sum(Fraction(.., Product))
+            return mul(A(), SM(div(A(), PR())))
+        if shape == "frac_prodden_with_sumfrac":    # denominator = Product containing Sum(Fraction(.., Product))
+            return div(A(), mul(A(), SM(div(A(), PR()))))
+        if shape == "cf_single_iv":                 # CounterfactualVariable.to_y0, one intervention: `Y @ -X` bare
+            return mul(self.cfprob(1, mixed=True), A())
+        if shape == "cf_multi_iv":                  # … several: `Y @ (-X, +Z)`
+            return mul(self.cfprob(rng.choice([2, 3]), mixed=True), A())
+        if shape == "level2":                       # Probability.to_y0 with a common intervention set: P[X](Y | Z)
+            return SM(mul(self.cfprob(rng.choice([1, 2, 3]), level2=True), A()))
+        if shape == "level2_pp":                    # PopulationProbability.to_y0: PP[π][X](Y)
+            return div(self.cfprob(rng.choice([1, 2]), level2=True, pp=True), PR())
+        if shape == "mixed_worlds":
+            return SM(div(self.cfprob(rng.choice([1, 2]), mixed=True), PR()))
+        if shape == "q_in_den":
+            return SM(div(A(), mul(self.q(), self.q())))
+        raise ValueError(shape)
+
+    def mode_wrap(self, x, levels):
+        """put `x` into `levels` random contexts: summand, numerator, denominator, factor"""
+        rng = self.rng
+        for _ in range(levels):
+            r = rng.randrange(7)
+            if r == 0:
+                x = self.sm(x)
+            elif r == 1:
+                x = ["bin", "div", x, self.atom()]
+            elif r == 2:
+                x = ["bin", "div", self.atom(), x]
+            elif r == 3:
+                x = ["bin", "mul", self.atom(), x]
+            elif r == 4:
+                x = ["bin", "mul", x, self.sm(self.atom())]
+            elif r == 5:
+                x = self.sm(["bin", "mul", x, self.atom()])
+            else:
+                x = ["bin", "div", self.atom(), ["bin", "mul", x, self.atom()]]
+        return x
+
+    def modes(self, shape=None):
+        shape = shape or self.rng.choice(self.MODE_SHAPES)
+        return shape, self.mode_wrap(self.mode_core(shape), self.rng.choice([0, 0, 1, 1, 2, 3]))
+
+
+    def repeated(self):
+        """constructions OUTSIDE the quantifier: a list that the builders treat as a set writes a name twice (or a tuple is
+        empty). They exercise the negative side of `namesOnce` (model vs harness/oracles/print_names.py) and the
+        interpreter model on de-duplication; the oracle of the property is not applied to them."""
+        rng = self.rng
+        a, b, c = (_n(n) for n in (self.pool + self.pool)[:3])
+        P = lambda *args: ["call", ["k", "P"], *args]  # noqa: E731
+        pos = lambda x: ["un", "pos", x]  # noqa: E731
+        r = rng.randrange(16)
+        if r == 0:
+            x = P(a, a)
+        elif r == 1:
+            x = P(["bin", "bor", a, a])
+        elif r == 2:
+            x = P(["bin", "band", a, a])
+        elif r == 3:
+            x = P(["tup", a, b, a])
+        elif r == 4:
+            x = P(["bin", "bor", a, ["tup", b, b]])
+        elif r == 5:
+            x = P(["bin", "matmul", a, ["tup", b, b]])
+        elif r == 6:
+            x = P(["bin", "matmul", a, ["tup", pos(b), ["un", "neg", b]]])     # Y @ (+X, -X): no overlap check on a fresh list
+        elif r == 7:
+            x = ["call", ["sub", ["k", "Sum"], ["tup", a, a]], P(a, b)]
+        elif r == 8:
+            x = ["call", ["sub", ["k", "Q"], ["tup", a, a]], b]
+        elif r == 9:
+            x = ["call", ["sub", ["k", "Q"], a], b, b]
+        elif r == 10:
+            x = ["call", ["sub", ["k", "P"], ["tup", b, b]], a]
+        elif r == 11:
+            x = ["call", ["sub", ["k", "P"], ["tup", pos(b), b]], a]           # P[+X, X](Y): the same name with two values
+        elif r == 12:
+            x = P(["bin", "matmul", a, b], a)
+        elif r == 13:
+            x = P(["bin", "bor", a, b], a)
+        elif r == 14:
+            x = P(pos(a), ["bin", "bor", ["un", "neg", a], b])
+        else:
+            x = ["call", ["sub", ["k", "Q"], a], ["tup", b, c, b]]
+        return self.mode_wrap(x, rng.choice([0, 0, 1]))
+
     def malformed(self):
         """constructions the builders reject (error taxonomy of the interpreter model): the real code must raise, or
         return something that is not an expression, exactly when the model does"""
@@ -304,7 +490,7 @@ def load_corpus():
 
 def _mutate_tokens(rng, toks):
     toks = list(toks)
-    alphabet = ["lp", "rp", "lb", "rb", "cm", "pl", "mi", "ti", "at", "st", "sl", "ba", "am", "P", "Sum", "One",
+    alphabet = ["lp", "rp", "lb", "rb", "cm", "pl", "mi", "ti", "at", "st", "sl", "ba", "am", "P", "Sum", "One", "PP", "TARGET_DOMAIN",
                 str(PC.name_to_int("A")), str(PC.name_to_int("B"))]
     for _ in range(rng.choice([0, 1, 1, 2, 3])):
         r = rng.random()
@@ -337,6 +523,14 @@ def cases(rng: random.Random, tier: str):
         else:
             a = g.malformed()
         out.append({"kind": "expr", "build": a})
+    k = {"quick": 1900, "escalated": 5700}.get(tier, 19000)
+    for i in range(k):
+        g = Gen(random.Random(rng.randrange(1 << 60)))
+        shape, a = g.modes(Gen.MODE_SHAPES[i % len(Gen.MODE_SHAPES)])
+        out.append({"kind": "expr", "build": a, "shape": shape})
+    for _ in range({"quick": 160, "escalated": 500}.get(tier, 1600)):
+        g = Gen(random.Random(rng.randrange(1 << 60)))
+        out.append({"kind": "expr", "build": g.repeated(), "shape": "repeated-name"})
     m = {"quick": 1500, "escalated": 5000}.get(tier, 15000)
     exprs = [c for c in out if c["kind"] == "expr"]  # (special cases have no token stream)
     for _ in range(m):
@@ -385,6 +579,42 @@ def _depth(e):
     if isinstance(e, Fraction):
         return 1 + max(_depth(e.numerator), _depth(e.denominator))
     return 0
+
+
+def printer_sites(e):
+    """which context-dependent printer call sites str(e) goes through (computed on the built object)"""
+    from y0.dsl import CounterfactualVariable, Fraction, Probability, Product, Sum
+
+    sites = set()
+    for x in _walk(e):
+        if isinstance(x, Sum) and isinstance(x.expression, Fraction):
+            sites.add("sum>frac(parens=False)")
+            if isinstance(x.expression.denominator, Product):
+                sites.add("sum>frac(parens=False),product-denominator")
+        if isinstance(x, Fraction):
+            if isinstance(x.denominator, Product):
+                sites.add("frac,product-denominator")
+            if isinstance(x.numerator, Product):
+                sites.add("frac,product-numerator")
+            if isinstance(x.denominator, Sum):
+                sites.add("frac,sum-denominator")
+        if isinstance(x, Product) and any(isinstance(f, Fraction) for f in x.expressions):
+            sites.add("product>frac-factor")
+        if isinstance(x, Probability):
+            vs = x.children + x.parents
+            if x._help_level_2_distribution()[0]:
+                sites.add("P[..] level-2")
+            elif any(isinstance(v, CounterfactualVariable) for v in vs):
+                sites.add("P(..) mixed worlds")
+            for v in vs:
+                if isinstance(v, CounterfactualVariable):
+                    sites.add("cf,one-intervention" if len(v.interventions) == 1 else "cf,several-interventions")
+    return sites
+
+
+ALL_SITES = ("sum>frac(parens=False)", "sum>frac(parens=False),product-denominator", "frac,product-denominator",
+             "frac,product-numerator", "frac,sum-denominator", "product>frac-factor", "P[..] level-2", "P(..) mixed worlds",
+             "cf,one-intervention", "cf,several-interventions")
 
 
 def _tokens_case_text(case):
@@ -478,8 +708,14 @@ def run_python(case):
     tags["built"] = "ok"
     s = str(e)
     enc_e = PC.to_str_tree(PC.enc_expr(e))
-    out = {"built": ["ok", enc_e], "domain": "true"}
-    out["tokens"] = PC.tokens_of(s)
+    once = PN.names_once(case["build"])
+    # `domain`: the theorems' hypotheses hold of every object built from a names-once construction (outside: not claimed)
+    out = {"built": ["ok", enc_e], "domain": "true" if once else "not-claimed", "names_once": "true" if once else "false"}
+    tags["names_once"] = once
+    try:
+        out["tokens"] = PC.tokens_of(s)
+    except Exception as x:  # a name outside the parser's table, a character outside Python's token alphabet
+        out["tokens"] = ["not-tokens", type(x).__name__]
     try:
         out["ast"] = ["ok", PC.to_str_tree(PC.ast_of(s))]
     except (SyntaxError, PC.OutsideFragment):
@@ -508,6 +744,9 @@ def run_python(case):
                 fail = f"simple-division family: parse_y0({s!r}) = {str(p)!r} is not equal to the original object"
             elif str(p) != s:
                 fail = f"simple-division family: the parsed object prints {str(p)!r}, the original {s!r}"
+    if not once and fail is not None:
+        tags["outside_quantifier_roundtrip"] = "fails: " + fail.split(":")[0][:40]
+        fail = None                  # a repeated name: outside the property's quantifier, nothing is claimed
     nodes = list(_walk(e))
     leaves = [x for x in nodes if isinstance(x, (Probability, QFactor, One, Zero))]
     has = lambda cls: any(isinstance(x, cls) for x in nodes)  # noqa: E731
@@ -521,8 +760,12 @@ def run_python(case):
         "has_marked_var": any(v.star is not None for v in allvars),
         "has_level2_print": "P[" in s or "][" in s,
         "n_tokens": min(len(out["tokens"]) // 10 * 10, 100),
+        "shape": case.get("shape", "random"),
         "roundtrip": "error" if out["reparsed"] == ["err"] else ("equal" if p == e else "same meaning, other object"),
     })
+    sites = printer_sites(e)
+    for st in ALL_SITES:
+        tags["site " + st] = st in sites
     nontrivial = len(leaves) >= 2 and (has(Product) or has(Sum) or has(Fraction))
     return {"out": out, "fail": fail, "nontrivial": nontrivial, "tags": tags}
 
@@ -579,9 +822,9 @@ def canon_model(case, rep):
         return ["err"] if rep[0] == "err" else ["ok", rep[1]]
     if len(rep) == 2 or rep[0] == "err":      # reply of (print eval …)
         return {"built": _res(rep, norm=True)}
-    _, built, toks, ast_, re_, dom, simp = rep
-    return {"built": _res(built, norm=True), "domain": dom, "tokens": list(toks[1:]), "ast": _res(ast_),
-            "reparsed": _res(re_), "simple": simp}
+    _, built, toks, ast_, re_, dom, simp, once = rep
+    return {"built": _res(built, norm=True), "domain": dom if once == "true" else "not-claimed", "tokens": list(toks[1:]), "ast": _res(ast_),
+            "reparsed": _res(re_), "simple": simp, "names_once": once}
 
 
 # ------------------------------------------------------------------------------------------ shrinking, keys
@@ -642,22 +885,27 @@ def finding_key(case, res):
 
 
 MANIFEST = {
-    "text": ("Proof, all three clauses at full strength over the decidable invariant `built` of builder-made objects. Lean theorems about "
+    "text": ("Proof, all three clauses at full strength for every expression built through the public DSL. Lean theorems about "
              "executable models of every to_y0() (token printer), of Python's expression grammar on the printed alphabet (precedence "
-             "| < & < + - < * / @ < unary < call/subscript) and of eval(s, {}, LOCALS) over models of P/PP/Sum/Q/One/Zero, the variable "
+             "| < & < + - < * / @ < unary < call/subscript) and of eval(s, {}, LOCALS) over models of P/PP/Sum/Q/One/Zero/TARGET_DOMAIN, the variable "
              "operators and every __mul__/__truediv__ overload: (1) parse_print_ast(_cont): the printed tokens of every well-formed "
              "expression, followed by any continuation, parse to exactly the operator tree of the object - printing is unambiguous; "
              "(2) parse_print_den / parse_print_total: for every built expression (fractions of fractions, fraction factors, constants) "
              "parsing the printed form succeeds and the result has the same denotation in every family of distributions, with no "
              "positivity hypothesis; (3) parse_print_eq / parse_print_same_text: on the simple-division family the parsed object IS "
-             "the original and prints the same text. Not theorems: that Python-built objects satisfy `built`, and that the models agree "
-             "with dsl.py / parser/internal.py / Python's own grammar - decided on every run by seven correspondence streams (objects "
-             "built by the real operators, `tokenize` of str(e), `ast.parse` of str(e), parse_y0(str(e)), the `built` and "
-             "simple-division predicates on the Python object, Python's parser on mutated token strings) plus the oracle."),
+             "the original and prints the same text; (4) built_of_eval: every expression the (model of the) DSL builds from a "
+             "construction tree over the public builders and operators that writes each name once per distribution (`namesOnce`, a "
+             "decidable predicate on the tree, decided on every generated construction by the model and by an independent Python "
+             "implementation) satisfies `built`, so (1)-(3) hold for everything built through the public DSL "
+             "(construction_roundtrip_total, for the total sort key of the code under test; also for the pinned key). Not theorems: that "
+             "the models agree with dsl.py / parser/internal.py / Python's own grammar - decided on every run by eight correspondence "
+             "streams (objects built by the real operators, `tokenize` of str(e), `ast.parse` of str(e), parse_y0(str(e)), the `built`, "
+             "simple-division and names-once predicates, Python's parser on mutated token strings) plus the oracle."),
     "note": ("Trusted: Lean kernel; axioms propext/Classical.choice/Quot.sound; the hand-written models tied to the code by sampling; the "
-             "specification `den` (Spec/Sem); Python's tokenize/ast as the reference for its grammar. Three defects were found by this "
+             "specification `den` (Spec/Sem); Python's tokenize/ast as the reference for its grammar. Four defects were found by this "
              "check and fixed (product denominators printed without parentheses; One/Zero missing from the parser's names; P[...] "
-             "subscripts printed in frozenset order); the models describe the fixed code. One open known finding: PP[TARGET_DOMAIN](..) prints 'PP[pi*](..)', which is not Python. "
+             "subscripts printed in frozenset order; PP[TARGET_DOMAIN](..) printed as 'PP[pi*](..)', which is not Python); the models "
+             "describe the fixed code. "
              "User-chosen names outside the parser's table, empty Q factors and subscript lists naming a variable twice are outside "
              "the quantifier (see assumptions)."),
     "technique": ("Lean 4 theorems (fuel-bounded recursive-descent model of Python's grammar; induction over expressions with the "
